@@ -82,6 +82,8 @@ def run(cases, timeout=600, per_function=2):
             j = int(ops[-1]) if ops else len(cases[i]) - 1
             found.append({"index": i, "case": cases[i], "op_index": j, "report": rep[-4000:], "summary": summarize(rep)})
             start = i + 1
+            if len(found) >= 25:            # enough witnesses; every further report costs a process restart
+                break
             # after `per_function` reports in the same C function, stop exercising the op that reaches it
             fn = found[-1]["summary"]["function"]
             counts[fn] = counts.get(fn, 0) + 1
